@@ -3,6 +3,7 @@ mod c12;
 mod c13;
 mod cbor_gen;
 mod hosttargets;
+mod livewal;
 mod targets;
 
 use vkit::Property;
@@ -14,6 +15,12 @@ fn main() {
     let args: Vec<String> = std::env::args().collect();
     if args.len() >= 3 && args[1] == "--c13-child" {
         c13::child_main(&args[2]);
+    }
+    if args.len() >= 2 && args[1] == "--live-wal" {
+        for (k, v) in livewal::live_wal_payloads() {
+            println!("{k}: {} payloads, sizes {:?}", v.len(), v.iter().map(|b| b.len()).collect::<Vec<_>>());
+        }
+        return;
     }
     if args.len() >= 2 && args[1] == "--list-codecs" {
         for t in targets::targets() {
